@@ -92,6 +92,11 @@ fn main() {
                 13 => { pool.push(V::Vec((m.make_vec)(g(2).max(0) as u64))); r = [1, 0, pool.len() as i64 - 1]; }
                 14 => if valid { if let V::Vec(v) = &mut pool[h as usize] { r = [1, (m.vec_push)(v, g(3) as u64) as i64, -1]; } }
                 15 => if valid { if let V::Vec(v) = &pool[h as usize] { r = [1, (m.vec_sum)(v) as i64, -1]; } }
+                19 => if valid { if let V::Vec(v) = &mut pool[h as usize] { r = [1, (m.vec_insert)(v, g(3).max(0) as u64, g(4) as u64), -1]; } }
+                20 => if valid { if let V::Vec(v) = &mut pool[h as usize] { r = [1, (m.vec_pop)(v), -1]; } }
+                21 => if valid { if let V::Vec(v) = &mut pool[h as usize] { r = [1, (m.vec_remove)(v, g(3).max(0) as u64), -1]; } }
+                22 => if valid { if let V::Vec(v) = &mut pool[h as usize] { r = [1, (m.vec_reserve)(v, g(3).max(0) as u64) as i64, -1]; } }
+                23 => if valid { if let V::Vec(v) = &pool[h as usize] { let n = (m.vec_clone)(v); pool.push(V::Vec(n)); r = [1, 0, pool.len() as i64 - 1]; } }
                 16 => if valid { if let V::Vec(v) = &pool[h as usize] { let s: &[u64] = &v[..]; r = [1, (m.slice_sum)(s.into()) as i64, -1]; } }
                 17 => if valid {
                     match std::mem::replace(&mut pool[h as usize], V::Dead) {
